@@ -661,6 +661,22 @@ def check_batch_write(ctx: Ctx, inp, verbose=False):
         return
 
     # ---- byte level: stage everything into a dict storage
+    # The sub-stagers of a slab complete in a random order (k event-loop turns each): C16_slab_stage quantifies
+    # over every completion order, and a stager that pairs buffers with ranges by completion order only shows then.
+    for wr in out_wrs:
+        st = wr.buffer_stager
+        if isinstance(st, BatchedBufferStager):
+            subs = list(st.byte_range_to_buffer_stager.values())
+            delays = list(range(len(subs)))
+            ctx.rng.shuffle(delays)
+            for sub, k in zip(subs, delays):
+                async def delayed(executor=None, _o=sub.stage_buffer, _k=k):
+                    for _ in range(_k):
+                        await asyncio.sleep(0)
+                    return await _o(executor=executor)
+                sub.stage_buffer = delayed
+            if len(subs) >= 2 and delays != sorted(delays):
+                ctx.count("bw.slab_out_of_order_completion")
     store: Dict[str, bytes] = {}
     for wr in out_wrs:
         try:
